@@ -638,7 +638,7 @@ const OPEN_FRAGS: &[&str] = &[
     "\n", "\t", "\u{a0}", "\u{2028}", "\u{b}", "\u{c}", "\r", "\u{85}", "\u{1680}", "\u{3000}", "*", "**", "* c;", "*;", "/", "/* c */", "/* ; */", "/*", "'a'", "'a''b'", "'a'd", "'a'dt",
     "'a't", "'a'n", "'a'b", "'41'x", "'4'x", "'+1'x", "\"a\"", "\"a\"\"b\"", "\"a\"x", "\"41\"X", "\"a\"dt", "'", "\"", "'a",
     "1", "12", "1.5", ".5", "1.", "1e5", "1E-5", "1e", "1e+", "0ffx", "0ff", "1fx", "12ab", "1ex", "9ffffffffffffffffx", "007",
-    "18446744073709551616", "(", ")", "{", "}", "[", "]", "!", "!!", "¦", "¦¦", "|", "||", "¬", "^", "~", "∘", "¬=", "^=", "~=",
+    "18446744073709551616", "000000000000000000001", "0000000000000000000000042", "1e00000005", "(", ")", "{", "}", "[", "]", "!", "!!", "¦", "¦¦", "|", "||", "¬", "^", "~", "∘", "¬=", "^=", "~=",
     "∘=", "+", "-", "<", "<=", "<>", ">", ">=", "><", "=", "=*", ".", ",", ":", "$", "$char10.", "$10.", "$é5.2", "$a", "$.", "@",
     "#", "?", "&", "&&", "%", "% ", "& ", "\\", "`", "\u{1}", "\0", "\u{feff}", "😀", "x=1;", "a.b", "lib.ds", "8.2", "best12.",
 ];
